@@ -101,6 +101,8 @@ func ruleArmTwins(prog *Program, rep *Report, a, b feSpec, floor int) {
 
 // armTwinAccepted: differences confirmed by reading; key -> {only in a, only in b, reason}.
 var armTwinAccepted = map[string][3]string{
+	"oj.Parser=oj.Tokenizer:openObject":   {"R.mi++", "", "the tokenizer builds no maps, so it has no cursor into recycled maps (Reuse option) to advance"},
+	"sen.Parser=sen.Tokenizer:openObject": {"R.mi++", "", "as for oj: the tokenizer builds no maps"},
 	"sen.Parser=sen.Tokenizer:tokenStart": {"if b == '('", "", "sen.Tokenizer has no arms for the parenthesised forms at all (known findings of A-noarm)"},
 }
 
